@@ -307,7 +307,7 @@ structure Parser where
   done : Bool := false
   packStatus : Option Bytes := none
   refStatuses : List Bytes := []   -- in arrival order
-  deriving Repr
+  deriving Repr, DecidableEq
 
 inductive ParseErr where
   | protocol   -- GitProtocolError
@@ -403,20 +403,24 @@ def localPrecheck (snap : Refs) (t : LocalRepo) (c : Name × Id) : Option LocalM
   | some v => if v != snapOld snap c.1 then some (if isZero c.2 then .unableToRemove else .unableToSet) else none
   | none => none
 
-/-- the apply loop; `ref_status[refname]` is only set on failure (`none` = success) -/
+/-- one iteration of the apply loop: `if not target.refs.set_if_equals(refname, old_sha1, new_sha1): …
+ref_status[refname] = msg` (resp. `remove_if_equals`); `ref_status[refname]` is only set on failure
+(`none` = success).  A successful removal also drops the name from packed-refs. -/
+def localStep (snap : Refs) (t : LocalRepo) (c : Name × Id) : LocalRepo × Option LocalMsg :=
+  if isZero c.2 then
+    let r := removeIfEquals t.refs c.1 (snapOld snap c.1)
+    (if r.2 then ⟨r.1, t.store, fun m => if m = c.1 then false else t.packed m⟩ else t,
+     if Gen.ReceivePack.localUsesCasResult && !r.2 then some .unableToRemove else none)
+  else
+    let r := setIfEquals t.refs c.1 (snapOld snap c.1) c.2
+    ({ t with refs := r.1 }, if Gen.ReceivePack.localUsesCasResult && !r.2 then some .unableToSet else none)
+
+/-- the apply loop -/
 def localApply (snap : Refs) : LocalRepo → List (Name × Id) → LocalRepo × List (Name × Option LocalMsg)
   | t, [] => (t, [])
-  | t, (n, new) :: cs =>
-    let old := snapOld snap n
-    if isZero new then
-      let (r', b) := removeIfEquals t.refs n old
-      let t' : LocalRepo := if b then ⟨r', t.store, fun m => if m = n then false else t.packed m⟩ else t
-      let (tf, st) := localApply snap t' cs
-      (tf, (n, if Gen.ReceivePack.localUsesCasResult && !b then some .unableToRemove else none) :: st)
-    else
-      let (r', b) := setIfEquals t.refs n old new
-      let (tf, st) := localApply snap { t with refs := r' } cs
-      (tf, (n, if Gen.ReceivePack.localUsesCasResult && !b then some .unableToSet else none) :: st)
+  | t, c :: cs =>
+    ((localApply snap (localStep snap t c).1 cs).1,
+     (c.1, (localStep snap t c).2) :: (localApply snap (localStep snap t c).1 cs).2)
 
 /-- `LocalGitClient.send_pack(path, update_refs, generate_pack_data, atomic=…)`.
 `snap` is `old_refs` (the refs read at the start), `t` the target as it is when the updates are applied
@@ -432,8 +436,6 @@ def localSendPack (snap : Refs) (t : LocalRepo) (atomic : Bool) (packIds : List 
     let pre := cmds.map (fun c => (c.1, localPrecheck snap t1 c))
     if atomic && pre.any (fun p => p.2.isSome) then
       (t1, some (pre.map (fun p => (p.1, some (match p.2 with | some m => m | none => .atomicFailed)))))
-    else
-      let (tf, st) := localApply snap t1 cmds
-      (tf, some st)
+    else ((localApply snap t1 cmds).1, some (localApply snap t1 cmds).2)
 
 end Dulwich.ReceivePack
